@@ -10,6 +10,7 @@ package main
 
 import (
 	"encoding/json"
+	"flag"
 	"fmt"
 	"os"
 	"strconv"
@@ -26,15 +27,18 @@ type tcase struct {
 	line string
 	rest []byte
 	// implementation
-	wOut   vh.Outcome
-	bytes  []byte
-	rOut   vh.Outcome
-	back   string // line of the decoded value
-	avail  int32
-	reenc  []byte
-	reOut  vh.Outcome
-	errExp bool   // the encoding is outside the format (array too long): both sides must reject it
-	hseed  uint64 // non-zero: the implementation value is built through a mutation history (vg.ToGoH) from this seed
+	wOut     vh.Outcome
+	bytes    []byte
+	rOut     vh.Outcome
+	back     string // line of the decoded value
+	avail    int32
+	reenc    []byte
+	reOut    vh.Outcome
+	errExp   bool   // the encoding is outside the format (array too long): both sides must reject it
+	connLine string // decoded through a net.Conn-backed DataInputX
+	connOut  vh.Outcome
+	connRun  bool
+	hseed    uint64 // non-zero: the implementation value is built through a mutation history (vg.ToGoH) from this seed
 }
 
 func build(v *vg.V, hseed uint64) value.Value {
@@ -82,7 +86,14 @@ func runImpl(c *tcase) {
 		c.back = vg.FromGo(d).Line()
 		c.reOut = vh.Guard(func() { c.reenc = encode(d) })
 	})
+	if connLimit > 0 && len(in) <= connLimit {
+		c.connRun = true
+		c.connLine, c.connOut = decodeViaConn(in)
+	}
 }
+
+// encodings up to this size are also decoded through a connection-backed input (0 = off)
+var connLimit = 0
 
 func kindPath(v *vg.V) string { return vg.TypeName[v.K] }
 
@@ -103,10 +114,19 @@ func shrink(v *vg.V, bad func(*vg.V) bool) *vg.V {
 }
 
 func main() {
+	child := flag.String("child", "", "internal: run the state-hunting stages in this (child) process")
 	env, rep := vh.Parse("C02")
+	if *child == "history" {
+		childMain(env.Seed, env.Thorough)
+		return
+	}
 	rng := vh.NewRng(env.Seed)
+	connLimit = 1 << 16
+	if env.Thorough {
+		connLimit = 1 << 20
+	}
 	rep.Rule = "a case is one generated value tree (all 20 implemented type codes, depth<=6 quick / 12 thorough, boundary-biased scalars, " +
-		"wide and hash-colliding maps; 60% of the values are built on the Go side through a random mutation history: junk+Clear rounds over the same / bucket-0 / colliding keys, placeholder+overwrite, PutString/PutLong/NewList, PutAll, Add/Set) plus 0-3 trailing bytes; non-trivial = its encoding is longer than one byte; distinct by one-line form"
+		"wide and hash-colliding maps; 60% of the values are built on the Go side through a random mutation history: junk+Clear rounds over the same / bucket-0 / colliding keys, placeholder+overwrite, PutString/PutLong/NewList, PutAll, Add/Set) plus 0-3 trailing bytes, decoded from a byte slice and from a net.Conn-backed input; in a child process: a decode history over strings with equal 32-bit hashes, valid decodes after thousands of failed ones, 12 goroutines at once; non-trivial = its encoding is longer than one byte; distinct by one-line form"
 
 	var cases []*tcase
 	var flush0 func()
@@ -297,6 +317,22 @@ func main() {
 					"decode(encode v) differs from v (type, content or order)"+what+": got "+vh.Clip(c.back, 300),
 					replayOf(c, map[string]interface{}{"smallest": vh.Clip(bad.LineX(), 2000), "smallest_history_seed": hs, "decoded": vh.Clip(c.back, 2000)}))
 			}
+			if c.connRun && c.back == c.line && (!c.connOut.OK() || c.connLine != c.line) {
+				bad := shrink(c.v, func(n *vg.V) bool {
+					var b []byte
+					if o := vh.Guard(func() { b = encode(n.ToGo()) }); !o.OK() {
+						return false
+					}
+					l, o := decodeViaConn(b)
+					return !o.OK() || l != n.Line()
+				})
+				rep.Fail("property", "ReadValue:"+kindPath(bad)+":differs-over-connection",
+					"the same bytes decode correctly from a byte slice but not from a connection-backed input (io.NewDataInputNet; Available() is 0 there): "+c.connOut.String()+" "+vh.Clip(c.connLine, 200),
+					replayOf(c, map[string]interface{}{"smallest": vh.Clip(bad.LineX(), 2000), "decoded_over_connection": vh.Clip(c.connLine, 1500), "panic": vh.Clip(c.connOut.Panic, 200)}))
+			}
+			if c.connRun {
+				rep.Count("decoded-over-connection")
+			}
 			if int(c.avail) != len(c.rest) {
 				rep.Fail("property", "ReadValue:"+kindPath(c.v)+":consumed", fmt.Sprintf("Available() after decoding = %d, expected %d", c.avail, len(c.rest)), replayOf(c, nil))
 			}
@@ -389,6 +425,7 @@ func main() {
 	}
 
 	var reSpecs []reSpec
+	var childSeeds []uint64
 	if env.Replay != "" {
 		b, err := os.ReadFile(env.Replay)
 		if err != nil {
@@ -401,12 +438,18 @@ func main() {
 				HSeed uint64 `json:"history_seed"`
 				MSeed uint64 `json:"mutation_seed"`
 				Steps int    `json:"steps"`
+				Stage string `json:"stage"`
+				Seed  uint64 `json:"seed"`
 			} `json:"cases"`
 		}
 		if err := json.Unmarshal(b, &rf); err != nil {
 			vh.Die("replay: %v", err)
 		}
 		for _, rc := range rf.Cases {
+			if rc.Stage == "history" {
+				childSeeds = append(childSeeds, rc.Seed)
+				continue
+			}
 			if rc.Value == "" {
 				continue
 			}
@@ -528,6 +571,16 @@ func main() {
 	flush(true)
 	if env.Replay == "" || len(reSpecs) > 0 {
 		totalLines += reencodeStage(env, rep, rng.Fork(), reSpecs)
+	}
+	if env.Replay == "" {
+		childSeeds = []uint64{env.Seed}
+	}
+	done := map[uint64]bool{}
+	for _, cs := range childSeeds {
+		if !done[cs] {
+			done[cs] = true
+			runChild(env, rep, cs)
+		}
 	}
 
 	g1, g2 := vg.CollidingGroups()
